@@ -10,7 +10,6 @@ NA = {
  "C17": "formatter preserving the syntax tree depends on offset/line arithmetic over arbitrary text; the named defect is an absent consideration, not a violated shape (panic sites of format are under C01).",
  "C18": "idempotence is a fixed point of a 9-phase text pipeline: a runtime quantity with no structural necessary condition.",
  "C20": "extract variable/function preserve behaviour: free-variable and insertion-point computations over all programs; value-level property.",
- "C21": "wrap-in-dbg / add-type-annotation preserve behaviour: same reason as C20.",
  "C22": "safety of --fix edits is a property of byte ranges computed at run time from positions.",
  "C27": "eval-up-to reports the run-time value: agreement between two executions.",
  "C32": "prelude functions are Garden source (__prelude.gdn), which none of the Rust-level analyses read; the Rust built-ins they call are inside C02.",
@@ -139,6 +138,11 @@ chk("C19", "MIR edge dominance and operand provenance: SELECT-BY-DEFINITION (the
     "Structural necessary conditions of 'exactly the occurrences of one variable', each decided on the code for all programs: occurrences are selected by definition identity, never by spelling; the definition-position table is filled from the scope lookup of the symbol's own name, innermost block first; block scopes are balanced; the splice touches exactly the recorded ranges; server and command line share the computation. Which definition the language's scope rules bind a use to on a given program, and the output of the renamed program, are not decided.",
     "Trusted: rustc MIR; the visitor reaches every symbol occurrence; the new name is fresh (given by the property). Was 'not applicable' in the plan; claimed for these clauses only.",
     "DESIGN.md section 4 C19")
+
+chk("C21", "MIR operand provenance and region rules on the PreludeDbg arm of eval_built_in_call: DBG-IDENTITY (every push_value in the arm pushes a clone of arg_values[0]; at most one per path; no pop, no binding write), DBG-STDERR-ONLY (every output site of the arm is _eprint, a PrintedStderr response or the nREPL stderr buffer); WRAP-SPLICE (the slices in wrap_in_dbg are [..start_offset], [start_offset..end_offset], [end_offset..] of one position around the literal `dbg(`); SAME-CORE (call graph)",
+    "Structural necessary conditions of the wrap-in-dbg half only: `dbg(e)` evaluates to the value of `e`, its printing goes to standard error in every output mode, and the edit wraps exactly the selected expression's byte range. The add-type-annotation half and the equality of the two programs' outputs are not decided.",
+    "Trusted: rustc MIR; `dbg` is bound to PreludeDbg; the call machinery evaluates a built-in's argument once (C02/C07). Was 'not applicable' in the plan; claimed for these clauses only.",
+    "DESIGN.md section 4 C21")
 
 ENGINES = [
  {"name": "gfacts", "path": "tools/gfacts", "kind_free_text": "rustc_private driver (nightly) dumping the type-checked MIR (CFG, resolved callees, asserts, places with field names) of every function of the garden crate as JSON; run as RUSTC_WORKSPACE_WRAPPER under cargo +nightly check on /repo's current tree"},
